@@ -17,7 +17,7 @@ from .common import user_body, calls, one_call, name_of, has_name, origin_has_ca
 
 LEVEL = "other"
 FUNNELS = (r"^io::commit::commit_transaction$", r"^io::commit::do_commit_detached_transaction$")
-ALLOWED_ARM_WRITES = {"version", "next_row_id"}
+ALLOWED_ARM_WRITES = {"version", "next_row_id", "transaction_file"}      # bookkeeping of the new version, not content of v
 ALLOWED_RESTORE_WRITES = {"transaction_file"}
 ALLOWED_RESTORE_MUT_CALLS = ("Manifest::set_timestamp",)
 
@@ -79,6 +79,18 @@ def run(db, chk):
                "after restore_old_manifest, every path to write_manifest_file stores next_row_id = max(restored, latest): %s" % (
                    "yes" if good and passes else "NO -- row ids handed out after a restore would repeat ids used by newer versions"),
                body.loc(rt["ln"]))
+        # "latest" must be the table as re-loaded in this attempt: in the rebasing funnel the dataset handle is re-bound by
+        # load_and_sort_new_transactions at the top of every attempt; a restore prepared before that (hoisted out of the retry
+        # loop) would take the maximum with the transaction's read version instead of the latest one
+        ld = calls(body, "io::commit::load_and_sort_new_transactions")
+        if ld:
+            # (the re-load sits under `if !strict_overwrite`, which is false only for Overwrite: plain dominance would be too
+            # strong; what is required is that the restore lies inside the retry loop, downstream of the re-load)
+            after_load = c.reachable_from([lb for lb, _ in ld], include_start=False)
+            okl = bool(good) and rb in after_load and all(g[0] in after_load for g in good)
+            chk.ob(R, "latest-is-reloaded:%s" % key, okl,
+                   "the restore and its next_row_id store lie inside the retry loop, downstream of load_and_sort_new_transactions (the handle they "
+                   "read is the one re-bound to the latest version in that attempt)", body.loc(rt["ln"]))
         # field-write inventory on the arm (exclusive region of the arm before it joins)
         written = set()
         for i, j, s in c.stmts():
